@@ -16,6 +16,9 @@ pub struct Step {
     /// closure / clone panics at its k-th invocation within this op (0 = never)
     #[serde(default)]
     pub panic_at: usize,
+    /// the panicking closure holds a guard whose destructor pulls from the iterator while unwinding
+    #[serde(default)]
+    pub unwind: bool,
 }
 
 #[derive(Deserialize, Clone, Debug, Default)]
@@ -52,6 +55,9 @@ pub struct Scenario {
     /// id of the element whose destructor panics (0 = none)
     #[serde(default)]
     pub drop_panic: u32,
+    /// the k-th clone of an element in the run panics (0 = never)
+    #[serde(default)]
+    pub clone_panic: usize,
     #[serde(default)]
     pub tag: Value,
 }
